@@ -9,7 +9,9 @@ Inductive case :=
   | CEven (xs ys : list float) (tx ty : float) (red : list nat) (rem : list row) (knees : list nat)
           (extremes : bool) (out : option (list nat))
   (* postprocessing.add_points_even_knees(points, knees, tx, ty, extremes) returned `out`; knees are curve indices *)
-  | CEvenK (xs ys : list float) (tx ty : float) (knees : list nat) (extremes : bool) (out : option (list nat)).
+  | CEvenK (xs ys : list float) (tx ty : float) (knees : list nat) (extremes : bool) (out : option (list nat))
+  (* a sequence of calls made on ONE points buffer, ONE reduced / removed pair and ONE knee array *)
+  | CSeq (calls : list case) (intact : bool).
 
 Definition opt_list_eqb (a b : option (list nat)) : bool :=
   match a, b with
@@ -38,7 +40,26 @@ Definition judge_out (n : nat) (model spec out : option (list nat)) : Z :=
            end in
   (100 * a + h)%Z.
 
-Definition judge (c : case) : Z :=
+
+(* ---- same-object multi-call stream: the sub-cases are the calls of ONE sequence made on one points buffer and one knee
+   array; `intact` = after the sequence the caller's arguments still hold what was passed (snapshot comparison).
+   agree: worst of the calls (1/4 over 5 over 0; 6 when every call is outside the domain);
+   holds: the first failed conjunct of a call inside the domain, else 8 when an argument was rewritten in place. ---- *)
+Definition combine_codes (codes : list Z) (intact : bool) : Z :=
+  let inside := filter (fun z => negb (z / 100 =? 6)%Z) codes in
+  match inside with
+  | [] => 600%Z
+  | _ =>
+      let has a := existsb (fun z => (z / 100 =? a)%Z) inside in
+      let a := if has 1%Z then 1%Z else if has 4%Z then 4%Z else if has 5%Z then 5%Z else 0%Z in
+      let h := match find (fun z => negb (z mod 100 =? 0)%Z) inside with
+               | Some z => (z mod 100)%Z
+               | None => if intact then 0%Z else 8%Z
+               end in
+      (100 * a + h)%Z
+  end.
+
+Fixpoint judge (c : case) {struct c} : Z :=
   match c with
   | CEven xs ys tx ty red rem knees ext out =>
       let n := length xs in
@@ -51,13 +72,15 @@ Definition judge (c : case) : Z :=
       if negb (curve_ok xs ys tx ty && nondecreasing knees && forallb (fun k => k <? n) knees) then 600%Z
       else judge_out n (@add_points_even_knees FloatNum xs ys tx ty knees ext)
                        (@even_spec_knees FloatNum xs ys tx ty knees ext) out
+  | CSeq calls intact => combine_codes (map judge calls) intact
   end.
 
 (* the model's own output and the specification's, for replay files *)
-Definition show (c : case) : option (list nat) * option (list nat) :=
+Fixpoint show (c : case) {struct c} : list (option (list nat) * option (list nat)) :=
   match c with
   | CEven xs ys tx ty red rem knees ext out =>
-      (@add_points_even FloatNum xs ys tx ty red rem knees ext, @even_spec_reduced FloatNum xs ys tx ty red knees ext)
+      [(@add_points_even FloatNum xs ys tx ty red rem knees ext, @even_spec_reduced FloatNum xs ys tx ty red knees ext)]
   | CEvenK xs ys tx ty knees ext out =>
-      (@add_points_even_knees FloatNum xs ys tx ty knees ext, @even_spec_knees FloatNum xs ys tx ty knees ext)
+      [(@add_points_even_knees FloatNum xs ys tx ty knees ext, @even_spec_knees FloatNum xs ys tx ty knees ext)]
+  | CSeq calls intact => flat_map show calls
   end.
